@@ -1,4 +1,7 @@
+import FrappyModel.Client.Match
+import FrappyModel.Generated.C11
 import FrappyModel.Generated.C20
 import FrappyModel.Node.Logging
 import FrappyModel.Small.Rotate
+import FrappyModel.Spec.C11
 import FrappyModel.Spec.C20
